@@ -972,3 +972,47 @@ def _subtrees(t):
             if isinstance(x, tuple):
                 out += _subtrees(x)
     return out
+
+
+def level_loop_exits(repo, rep, rule):
+    """Every iteration of the level loop of pt_fld floods its level before it may leave the loop: an exit taken before steps 1a-1c of the
+    current level skips the bins of that level (the last sorted bin keeps the 'unlabelled' marker and belongs to no partition)."""
+    cf = core(repo)
+    nloops = []
+    for n in cf.walk(cf.body("pt_fld")):
+        if n.get("kind") == "ForStmt":
+            cl = counted_loop(cf, n)
+            if cl is not None and cl[2][0] == "idx" and cl[2][1] == ("var", "neigh"):
+                nloops.append(n)
+    nloops.sort(key=cf.pb)
+    if len(nloops) < 3:
+        raise AnalysisError(f"pt_fld: flooding steps not found ({len(nloops)} neighbour loops)")
+    def ancestors(n):
+        out = []
+        p = n.get("_p")
+        while p is not None and p.get("kind") != "FunctionDecl":
+            if p.get("kind") in ("ForStmt", "WhileStmt", "DoStmt"):
+                out.append(p)
+            p = p.get("_p")
+        return out
+    common = [a for a in ancestors(nloops[0]) if all(a in ancestors(x) for x in nloops[1:3])]
+    if not common:
+        raise AnalysisError("pt_fld: level loop (common loop of steps 1a, 1b, 1c) not found")
+    level = common[0]
+    last_step = nloops[2]
+    nex = 0
+    for n in cf.walk(level):
+        if n.get("kind") in ("BreakStmt", "ReturnStmt", "GotoStmt", "ContinueStmt"):
+            anc = ancestors(n)
+            if n.get("kind") in ("BreakStmt", "ContinueStmt") and (not anc or anc[0] is not level):
+                continue        # leaves an inner loop only
+            nex += 1
+            if cf.pb(n) < cf.pe(last_step):
+                rep.fail(rule, SPECPART_C, cf.line(n), "pt_fld", cf.text(n.get("_p") or n)[:80],
+                         "the level loop can be left (or the level skipped) BEFORE the bins of the current level were flooded: a level that still "
+                         "holds an unprocessed bin (e.g. a unique minimum as the last sorted bin) is skipped, that bin keeps the 'not yet reached' "
+                         "marker and ends up in no partition")
+            else:
+                rep.ok(rule, f"{SPECPART_C}:{cf.line(n)} pt_fld", cf.text(n.get("_p") or n)[:60], "after steps 1a-1c of the level")
+    rep.ok(rule, f"{SPECPART_C}:{cf.line(level)} pt_fld", f"level loop with {nex} exit(s)", "no exit precedes the flooding of the current level")
+    return nex
